@@ -109,6 +109,9 @@ def case_wellformed(ctx, spec):
         msg = str(e)
         if any(k in msg for k in DEP_DISCARD):
             raise Discard("dependency did not converge")
+        if "NaN" in msg and any(l in ("algo=WeighMeanVar", "algo=WeighERC", "algo=WeighInvVol") for l in gen.spec_labels(spec)):
+            # the third-party optimiser returned NaN weights on a degenerate (near-constant) window; weight correctness is C15's business
+            raise Discard("dependency produced NaN weights on a degenerate window")
         sig = bt_frame_signature(e)
         raise Violation("well-formed backtest raised %s: %s" % (type(e).__name__, msg[:300]), signature=sig)
     nt = n_trades(bt, b)
